@@ -68,6 +68,7 @@ type c16BSStats struct {
 	multiLevel, wideHeaderCells, orphanCols                  int
 	maxFoot, multiDigitRefs                                  int // most footnote lines under one table; marks of >= 2 digits resolved in cells
 	worst                                                    float64
+	sharedScaleRows                                          int // rows of >= 2 cells whose smallest non-zero magnitude was checked for >= 3 significant digits
 }
 
 var c16BSNonTrivial sync.Map
@@ -395,6 +396,17 @@ func c16SuperNum(s string) (int, bool) {
 
 // c16NumberAgrees compares a scaled text number with the CSV number. It
 // returns the distance as a fraction of half a unit of the last printed digit.
+// c16SigDigits counts the significant digits of a scaled text number: the
+// digits from the first non-zero one to the last printed one.
+func c16SigDigits(tok string) int {
+	m := c16NumRe.FindStringSubmatch(tok)
+	if m == nil {
+		return 99
+	}
+	d := strings.TrimLeft(strings.ReplaceAll(strings.TrimPrefix(m[1], "-"), ".", ""), "0")
+	return len(d)
+}
+
 func c16NumberAgrees(tok, csvNum string) (ok bool, frac float64, err error) {
 	m := c16NumRe.FindStringSubmatch(tok)
 	if m == nil {
@@ -701,8 +713,43 @@ func c16CompareTable(ti int, lines []string, t *c16CSVTable, warns map[int][]c16
 			return f, nil
 		}
 		var tw []c16TextCellWarn
-		for e := 0; e < t.ncols; e++ {
+		// the cell of the row whose value is closest to zero without being zero
+		rowMin, rowMinTok, rowMinCol, rowCells, rowSub := 0.0, "", -1, 0, false
+		for e := 0; e <= t.ncols; e++ {
+			if e == t.ncols {
+				// The cells of a row share one scale, the one appropriate to the
+				// smallest non-zero magnitude among them: that cell keeps at least
+				// three significant digits (for magnitudes down to 1e-8 of the
+				// smallest prefix: 1e-9 for decimal units, recognised here by a
+				// sub-unit prefix in the row, 1 otherwise).
+				floor := 1.01e-8
+				if rowSub {
+					floor = 1.01e-17
+				}
+				if rowMinCol >= 0 && rowMin >= floor {
+					if rowCells > 1 {
+						st.sharedScaleRows++
+					}
+					if sd := c16SigDigits(rowMinTok); sd < 3 {
+						return kit.Failf("bs-row-scale", "table %d %s column %d: %q shows %d significant digit(s) of %g, the smallest non-zero magnitude among the %d cells of its row: the row's scale is not the one appropriate to it%s", ti, what, rowMinCol, rowMinTok, sd, rowMin, rowCells, ctx()), nil
+					}
+				}
+				break
+			}
 			c, toks := row.cells[e], bt[e]
+			if c.present && len(toks) > 0 {
+				if m := c16NumRe.FindStringSubmatch(toks[0].s); m != nil {
+					if v, err := strconv.ParseFloat(c.center, 64); err == nil && !math.IsNaN(v) && !math.IsInf(v, 0) {
+						rowCells++
+						if m[3] == "m" || m[3] == "µ" || m[3] == "n" {
+							rowSub = true
+						}
+						if a := math.Abs(v); a != 0 && (rowMinCol < 0 || a < rowMin) {
+							rowMin, rowMinTok, rowMinCol = a, toks[0].s, e
+						}
+					}
+				}
+			}
 			if !c.present {
 				st.missingCells++
 				if len(toks) > 0 {
@@ -940,6 +987,7 @@ func c16BSCheck(c c16BSCase) (fail *kit.Fail) {
 	kit.Count("c16.bs.warnings-compared", int64(st.warnings))
 	kit.Count("c16.bs.footnote-marks", int64(st.footnoteRefs))
 	kit.Count("c16.bs.missing-cells", int64(st.missingCells))
+	kit.Count("c16.bs.rows-with-shared-scale-checked", int64(st.sharedScaleRows))
 	kit.Count("c16.bs.summary-rows", int64(st.geomeanRows))
 	kit.Count("c16.bs.tables-with-column-without-comparison", int64(st.orphanCols))
 	kit.NoteMax("c16.bs.worst-number-distance-in-half-units", st.worst)
